@@ -23,7 +23,8 @@ STAGE_TIMEOUT = 10.0
 
 def excluded_reason(text):
     """inputs the quantifier excludes: nesting > 64, module self-recursion, ranges > 10^6"""
-    if ".this" in text or "pkg" in text:
+    # token-level: the generator prints `mod . this`, so look for the words, not the spelling `.this`
+    if re.search(r"\bthis\b", text) or re.search(r"\bpkg\b", text):
         return "module self-recursion"
     d = m = 0
     for ch in text:
